@@ -38,6 +38,12 @@ def make_contour(kind):
     from virocon import (AndContour, DirectSamplingContour, HighestDensityContour, IFORMContour, ISORMContour, OrContour)
     if kind == "iform":
         return IFORMContour(model2(), 0.01, n_points=24)
+    if kind == "iform_3pts":
+        return IFORMContour(model2(), 0.05, n_points=3)
+    if kind == "iform_negative":    # coordinates with negative and large values
+        from virocon import GlobalHierarchicalModel, NormalDistribution
+        m = GlobalHierarchicalModel([{"distribution": NormalDistribution(-2500.0, 300.0)}, {"distribution": NormalDistribution(0.0, 0.001)}])
+        return IFORMContour(m, 1e-3, n_points=10)
     if kind == "isorm":
         return ISORMContour(model2(), 0.01, n_points=24)
     if kind == "hdc":
@@ -413,9 +419,9 @@ def main(ctx):
     ctx.assumptions = ["matplotlib Agg backend; artists read back from the Axes (lines, collections); Axes.contour wrapped on the "
                        "harness side to capture the grid handed to it"]
     cases = []
-    for c in ("iform", "isorm", "hdc", "hdc_multi", "ds", "and", "or", "iform3", "hdc3"):
+    for c in ("iform", "iform_3pts", "iform_negative", "isorm", "hdc", "hdc_multi", "ds", "and", "or", "iform3", "hdc3"):
         cases.append({"kind": "save", "contour": c, "semantics": list(SEMANTICS), "paths": PATHS})
-    for c in ("iform", "isorm", "hdc", "ds", "and", "or"):
+    for c in ("iform", "iform_3pts", "iform_negative", "isorm", "hdc", "ds", "and", "or"):
         cases.append({"kind": "plot_contour", "contour": c})
     for mname in ("w_ln", "ln_w"):
         cases.append({"kind": "other_plots", "model": mname})
